@@ -1,0 +1,53 @@
+// Copyright (C) 2026 Storj Labs, Inc.
+// See LICENSE for copying information.
+
+//go:build verif
+
+package drpcserver
+
+// Machine-checked contracts for this package (read by /verif/govc; comment-only).
+
+// handleRPC: the handler's error is forwarded unchanged with SendError; success half-closes.
+//@ func (*Server).handleRPC
+//@   props C10 C03
+//@   requires s.handler != nil && stream != nil && stream.wr != nil && stream.wr.w != nil
+//@   modifies *
+//@   ghost entry herr = nil
+//@   ghost after:HandleRPC herr = ret
+//@   site (*Stream).SendError assert [C10.forwards-handler-error] arg1 == herr && herr != nil && arg0 == stream
+//@   site (*Stream).CloseSend assert [C10.success-half-closes] herr == nil && arg0 == stream
+//@   check [C10.exactly-one] eventCount("invoke:HandleRPC") == 1 && eventCount("call:(*Stream).SendError") + eventCount("call:(*Stream).CloseSend") == 1
+
+// ServeOne: the manager created for the transport is closed on every return path.
+//@ func (*Server).ServeOne
+//@   props C12 C05
+//@   requires tr != nil && ctx != nil && s.handler != nil && s.opts.Manager.WriterBufferSize >= 0 && s.opts.Manager.WriterBufferSize <= 1073741824
+//@   modifies *
+//@   loop 1 invariant [s] s == s0 && ctx != nil && man != nil && man.wr != nil && man.wr.w != nil && man.tr != nil && s.handler != nil
+//@   check [C12.closes-manager] eventCount("call:(*Manager).Close") == 1
+//@   check [C12.clears-cache]   eventCount("call:(*Cache).Clear") == 1
+
+// Serve: on every return the tracker is cancelled and then waited for, so Serve returns only after
+// every goroutine it started (one per accepted connection) has returned.
+//@ func (*Server).Serve
+//@   props C12
+//@   requires lis != nil && ctx != nil
+//@   modifies *
+//@   loop 1 invariant [s] s == s0 && lis == lis0 && tracker != nil && ctx == ctx0
+//@   check [C12.cancel-then-wait] eventCount("call:(*Tracker).Cancel") == 1 && eventCount("call:(*Tracker).Wait") == 1 && eventAfterLast("call:(*Tracker).Cancel", "call:(*Tracker).Wait")
+//@   loop 1 step [C12.every-conn-tracked] eventAfterLast("invoke:Accept", "call:(*Tracker).Run") || eventAfterLast("invoke:Accept", "select:")
+
+// The per-connection goroutine body: serves the connection to the end (ServeOne closes the manager).
+//@ func (*Server).Serve$2
+//@   props C12
+//@   modifies *
+//@   requires s != nil && s.handler != nil && conn != nil && ctx != nil && s.opts.Manager.WriterBufferSize >= 0 && s.opts.Manager.WriterBufferSize <= 1073741824
+//@   check [C12.serves-conn] eventCount("call:(*Server).ServeOne") == 1
+
+// Set once by NewWithOptions, never assigned again (checked by a scan of every function of the package).
+//@ immutable Server.handler
+//@   props C10 C12 C05
+
+//@ func isTemporary
+//@   props C12
+//@   trusted "classifies an error with errors.As and net.Error.Temporary; only selects whether Serve retries Accept or returns"
